@@ -53,6 +53,10 @@ func listingCompleteness(c *Ctx, rule string, fn *ssa.Function) int {
 		bad := ""
 		for _, nx := range nexts {
 			for _, e := range factEdges(fn, truthFact(vIs(nx.Value()), false, "")) {
+				// the loop's own exit test (not an edge that merely implies it)
+				if ifi, ok := lastInstr(e.From).(*ssa.If); !ok || edgeFact(ifi, e.Succ).L != nx.Value() {
+					continue
+				}
 				r := reachable(fn, e.From.Succs[e.Succ], cut)
 				for _, ret := range successReturns(fn) {
 					if !r[ret.Block()] {
@@ -112,7 +116,6 @@ func listingCompletenessAll(c *Ctx, rule string, floor int) {
 	}
 	c.floor(rule, n, floor, "functions iterating a replica listing")
 }
-
 
 // listingPrefixOK: consumers for which a listing cut short by a storage error is
 // harmless (they act on a prefix of an ordered listing and a later run resumes).
